@@ -61,6 +61,7 @@ type TxShape struct {
 	NoMeta   bool         `json:"no_meta,omitempty"`  // empty metadata
 	TxPad    int          `json:"tx_pad,omitempty"`   // extra instruction data bytes
 	Meta     PayloadShape `json:"meta,omitempty"`
+	Data     PayloadShape `json:"data,omitempty"` // frame layout of the transaction bytes (default: one frame)
 	Sig      *[64]byte    `json:"sig,omitempty"` // explicit first signature (collision scenarios)
 }
 
@@ -510,7 +511,11 @@ func (g *gen) tx(ts TxShape, slot uint64, pos, blockIdx, counter int) TxTruth {
 	}
 	// metadata continuation frames precede the transaction node
 	node.Metadata = g.frames(metaStored, ts.Meta)
-	node.Data = g.frames(txBytes, PayloadShape{Bare: ts.Meta.Bare})
+	dataShape := ts.Data
+	if ts.Meta.Bare {
+		dataShape.Bare = true
+	}
+	node.Data = g.frames(txBytes, dataShape)
 	if !ts.NoIndex {
 		node.Index = pp(pos)
 	}
